@@ -12,7 +12,7 @@ from sim.simstream import SimStream
 
 ID = "C08"
 LEVEL = "fault_enumeration"
-TIERS = {"quick": {"runs": 6000, "budget_s": 70, "chunk": 40, "min_runs": 200},
+TIERS = {"quick": {"runs": 16000, "budget_s": 75, "chunk": 40, "min_runs": 200},
          "thorough": {"runs": 400000, "budget_s": 1200, "chunk": 100, "min_runs": 2000}}
 RULE = ("case = seeded (definition set, config, accepted input A); within a case EVERY single fault is enumerated: eof@k for "
         "each cut k in [0,len A), and for each read call i of the fault-free parse: short(m in {0,1,n-1}), empty, none, "
